@@ -282,6 +282,12 @@ func refTruthy(v data.Value) bool {
 	return true
 }
 
+// refFloatDigits: floats whose shortest round-trip form has more digits than this are outside the
+// printed domain. 15 where a JavaScript engine's number formatting is compared (C04); 17 (every
+// float between 1e-7 and 1e6 in magnitude) where only the Go renderer is judged (C01): the
+// shortest round-trip decimal is what Soy's JavaScript semantics print.
+var refFloatDigits = 15
+
 // refStr prints a value; ok=false when the printed form is outside the specified domain.
 func refStr(v data.Value) (string, bool) {
 	switch v := v.(type) {
@@ -306,7 +312,7 @@ func refStr(v data.Value) (string, bool) {
 			return "", false // -0: unspecified
 		}
 		s := strconv.FormatFloat(f, 'f', -1, 64)
-		if len(strings.ReplaceAll(strings.ReplaceAll(s, ".", ""), "-", "")) > 15 {
+		if len(strings.ReplaceAll(strings.ReplaceAll(s, ".", ""), "-", "")) > refFloatDigits {
 			return "", false
 		}
 		return s, true
